@@ -42,7 +42,7 @@ Qed.
 
 (* ---- one step ---------------------------------------------------------------------- *)
 Definition wf_op (o sz : Z) (x : op) : Prop :=
-  match x with OAlloc n _ => 1 <= n | OFree a => o <= a < o + sz end.
+  match x with OAlloc n _ => 0 <= n | OFree a => True end.
 
 Lemma alloc_result_consts s b n :
   pos (alloc_result s b n) = pos s /\ off (alloc_result s b n) = off s /\ size (alloc_result s b n) = size s.
@@ -76,7 +76,7 @@ Qed.
 (* what one operation does to the set of live allocations *)
 Definition live_step (s : st) (x : op) (r : option Z) (s' : st) : Prop :=
   match x, r with
-  | OAlloc n _, Some a => forall a' n', is_live s' a' n' <-> is_live s a' n' \/ (a' = a /\ n' = n)
+  | OAlloc n _, Some a => forall a' n', is_live s' a' n' <-> is_live s a' n' \/ (1 <= n /\ a' = a /\ n' = n)
   | OAlloc n _, None => s' = s
   | OFree a, _ => forall a' n', is_live s' a' n' <-> is_live s a' n' /\ a' <> a
   end.
@@ -86,18 +86,24 @@ Lemma step_inv s x : AInv s -> wf_op (off s) (size s) x ->
     pos s' = pos s /\ off s' = off s /\ size s' = size s /\ live_step s x r s'.
 Proof.
   intros A Hwf. destruct x as [n c|a]; simpl in *.
-  - destruct (alloc_spec s n c A Hwf) as [[E Hnf]|(b & Hb & Hu & Hle & E & A')].
+  - destruct (Z.eq_dec n 0) as [->|Hn0].
+    { destruct (alloc_zero_spec s c A) as (s' & r & E & A' & Hat & Kp & Ko & Ks & Hr).
+      exists s', r. split; [auto|]. split; [auto|]. split; [auto|]. split; [auto|]. split; [auto|].
+      destruct r as [a|]; [|exact Hr].
+      intros a' n'. unfold is_live. rewrite Hat. split; [auto|]. intros [?|[? _]]; [auto|lia]. }
+    assert (Hn1 : 1 <= n) by lia.
+    destruct (alloc_spec s n c A Hn1) as [[E Hnf]|(b & Hb & Hu & Hle & E & A')].
     + exists s, None. split; [auto|]. split; [auto|]. split; [auto|]. split; [auto|]. split; [auto|]. reflexivity.
     + destruct (alloc_result_consts s b n) as (? & ? & ?).
       exists (alloc_result s b n), (Some (bstart b)). split; [auto|]. split; [auto|].
       split; [auto|]. split; [auto|]. split; [auto|].
-      intros a' n'. apply alloc_live; try (apply A); auto; lia.
+      intros a' n'. rewrite alloc_live; try (apply A); auto; try lia. tauto.
   - destruct A as [P C]. destruct (live_dec s a P) as [[n Hl]|Hn].
     + destruct (free_live s a n (conj P C) Hl) as (s' & xb & mb & E & A' & _ & _ & _ & U & K).
       exists s', None. rewrite E. simpl. split; [auto|]. split; [auto|].
       destruct K as (? & ? & ?). split; [auto|]. split; [auto|]. split; [auto|].
       intros a' n'. unfold is_live. apply U. reflexivity.
-    + rewrite free_noop by (auto; unfold hi; lia). simpl.
+    + rewrite free_noop by auto. simpl.
       exists s, None. split; [auto|]. split; [split; auto|]. split; [auto|]. split; [auto|]. split; [auto|].
       intros a' n'. split; [|tauto]. intros H. split; auto. intros ->. apply (Hn n'); auto.
 Qed.
@@ -106,7 +112,7 @@ Qed.
 (* the live allocations according to the history alone: what alloc returned and was not freed since *)
 Fixpoint ghost (ops : list op) (outs : list (option Z)) (L : list (Z * Z)) : list (Z * Z) :=
   match ops, outs with
-  | OAlloc n _ :: r, Some a :: r' => ghost r r' ((a, n) :: L)
+  | OAlloc n _ :: r, Some a :: r' => ghost r r' (if 1 <=? n then (a, n) :: L else L)
   | OAlloc _ _ :: r, None :: r' => ghost r r' L
   | OFree a :: r, _ :: r' => ghost r r' (filter (fun e => negb (fst e =? a)) L)
   | _, _ => L
@@ -126,15 +132,17 @@ Proof.
                              forall o' : list (option Z), ghost (x :: ops) (r :: o') L = ghost ops o' L1).
     { destruct x as [n c|a]; simpl in Hlive.
       - destruct r as [a|].
-        + exists ((a, n) :: L). split; auto. intros a' n'. simpl. rewrite Hlive, <- HL.
-          split; [intros [E|?]; [inv E; auto|auto]|intros [?|[-> ->]]; auto].
+        + exists (if 1 <=? n then (a, n) :: L else L). split; auto. intros a' n'. rewrite Hlive, <- HL.
+          destruct (Z.leb_spec 1 n); simpl.
+          * split; [intros [E|?]; [inv E; auto|auto]|intros [?|(_ & -> & ->)]; auto].
+          * split; [auto|intros [?|(? & _)]; [auto|lia]].
         + subst s1. exists L. split; auto.
       - exists (filter (fun e => negb (fst e =? a)) L). split; auto.
         intros a' n'. rewrite filter_In, Hlive, <- HL. simpl.
         destruct (Z.eqb_spec a' a); simpl; split; intros [? ?]; split; auto; try discriminate; lia. }
     destruct HL1 as (L1 & HL1 & Hg).
-    destruct (IH s1 L1 A1) as (s2 & outs & E2 & A2 & Kp2 & Ko2 & Ks2 & HL2); auto.
-    { rewrite Ko, Ks. auto. }
+    assert (Hrest1 : Forall (wf_op (off s1) (size s1)) ops) by (rewrite Ko, Ks; exact Hrest).
+    destruct (IH s1 L1 A1 Hrest1 HL1) as (s2 & outs & E2 & A2 & Kp2 & Ko2 & Ks2 & HL2).
     exists s2, (r :: outs). rewrite Hg. simpl run. rewrite E1. simpl. rewrite E2. simpl.
     split; [auto|]. split; [auto|]. split; [congruence|]. split; [congruence|]. split; [congruence|].
     exact HL2.
@@ -146,10 +154,11 @@ Theorem AInv_reachable_proof sz p o ops : 0 <= p < sz -> Forall (wf_op o sz) ops
     (forall a n, In (a, n) (ghost ops outs []) <-> is_live s a n).
 Proof.
   intros Hp Hwf. destruct (init_inv sz p o Hp) as (s0 & E0 & A0 & Kp & Ko & Ks & Hnl).
-  destruct (run_inv ops s0 [] A0) as (s & outs & E & A & Kp' & Ko' & Ks' & HL).
-  - rewrite Ko, Ks. auto.
-  - intros a n. simpl. split; [tauto|]. intros H. exact (Hnl a n H).
-  - exists s, outs. rewrite E0. simpl. split; [auto|]. split; [auto|].
+  assert (Hwf0 : Forall (wf_op (off s0) (size s0)) ops) by (rewrite Ko, Ks; exact Hwf).
+  assert (HL0 : forall a n, In (a, n) [] <-> is_live s0 a n)
+    by (intros a n; simpl; split; [tauto|]; intros H; exact (Hnl a n H)).
+  destruct (run_inv ops s0 [] A0 Hwf0 HL0) as (s & outs & E & A & Kp' & Ko' & Ks' & HL).
+  exists s, outs. rewrite E0. simpl. split; [auto|]. split; [auto|].
     split; [congruence|]. split; [congruence|]. split; [congruence|]. auto.
 Qed.
 
@@ -170,6 +179,7 @@ Qed.
 Lemma free_rel_irrelevant s a : off s = 0 -> free false s a = free true s a.
 Proof.
   intros H0. unfold free.
+  destruct (negb ((0 <=? a - off s) && (a - off s <? size s))); auto.
   destruct (aget (arr s) (a - off s)) as [[blk|]|e]; simpl; auto.
   destruct (bused blk); auto.
   destruct (aset (arr s) (a - off s) (Some (set_used blk false))) as [a1|e]; simpl; auto.
